@@ -706,12 +706,16 @@ class CoordinateSearch(Optimizer):
 
 
 # =============================================================================================== EVQE helpers
-def random_evqe_setup(rng, quick: bool = True, family: Optional[str] = None, plain_fitness: Optional[bool] = None) -> dict:
+def random_evqe_setup(rng, quick: bool = True, family: Optional[str] = None, plain_fitness: Optional[bool] = None,
+                      rich_assembly: bool = False) -> dict:
     """A small random EVQE configuration as a JSON-able dict (see build_evqe / build_package_solver);
     family: "evqe" | "package" | None (random).
     plain_fitness: both selection penalties 0 and no roulette offset (tournament selection, or an objective shifted to be
     strictly positive), at least two generations and a speciation threshold that merges species — the configuration in
-    which the selection fitness of an individual is its expectation value times its species size and nothing else."""
+    which the selection fitness of an individual is its expectation value times its species size and nothing else.
+    rich_assembly: an initial state that does not commute with the ansatz ("h0" / "ry"), aux operators requested (list or
+    dict), alpha = 1, and a limit that lets at least one generation happen — the configurations on which the
+    result-assembly clause of C05 (eigenstate / aux values of the best individual behind the initial state) is decided."""
     n_qubits = rng.choice([1, 2, 2, 2, 3] if not quick else [1, 2, 2])
     evaluator = rng.choice(["estimator", "sampler", "bitstring"])
     pop = rng.randint(2, 4 if quick else 6)
@@ -745,6 +749,14 @@ def random_evqe_setup(rng, quick: bool = True, family: Optional[str] = None, pla
     # family "package": base configuration around the package's own speciation/selection with a fixed seeded initial
     # population.  `more`: further problems solved afterwards with the SAME solver object (other operator, other initial
     # state, other aux form): the result of every solve has to be consistent with its own history.
+    if rich_assembly:
+        setup["init"] = rng.choice(["h0", "ry"])
+        setup["aux"] = rng.choice(["list", "dict"])
+        setup["alpha"] = 1
+        if setup["max_evals"] is not None:
+            setup["max_evals"] = max(setup["max_evals"], 90)
+        if setup["max_generations"] is not None:
+            setup["max_generations"] = max(setup["max_generations"], 2)
     if plain_fitness is None:
         plain_fitness = rng.random() < 0.25
     setup["penalty"] = 0.0 if plain_fitness else rng.choice([0.0, 0.1, 0.1])
@@ -765,7 +777,7 @@ def random_evqe_setup(rng, quick: bool = True, family: Optional[str] = None, pla
     if setup["family"] == "package" and setup["max_generations"] is None and setup["criterion"] is None:
         setup["max_generations"] = rng.randint(1, 3)   # selection alone may report too few evaluations to hit a budget
     if setup["family"] == "package" or rng.random() < 0.4:
-        setup["more"] = [dict(coeffs=[rng.choice([-2.0, -1.0, 0.5, 1.0, 1.5]) for _ in range(4)], init=rng.choice([None, "x0", "h0"]),
+        setup["more"] = [dict(coeffs=[rng.choice([-2.0, -1.0, 0.5, 1.0, 1.5]) for _ in range(4)], init=rng.choice([None, "x0", "h0", "ry"]),
                               aux=rng.choice([None, "list", "dict"]))]
     else:
         setup["more"] = []
@@ -788,6 +800,11 @@ def _init_circuit(n: int, kind):
     init = QuantumCircuit(n)
     if kind == "x0":
         init.x(0)
+    elif kind == "ry":   # generic rotations: commutes with nothing the ansatz does
+        for q in range(n):
+            init.ry(0.7 + 0.4 * q, q)
+        if n > 1:
+            init.cx(n - 1, 0)
     else:  # "h0": does not commute with the ansatz gates, so the order of composition matters
         init.h(0)
         if n > 1:
